@@ -314,6 +314,13 @@ func (x *Exec) symbolic(st *State, name string, t types.Type) SVal {
 			// a pointer to a struct we track: the object is named after the variable holding the pointer
 			return SVal{K: KLoc, Loc: name, GoT: t, Src: name}
 		}
+		if !isOpaqueStruct(pt.Elem()) {
+			if _, isPtr := pt.Elem().Underlying().(*types.Pointer); !isPtr {
+				// a pointer to a scalar, slice or map cell (`completed *bool`, `values *[]*T` handed to a helper): the cell it
+				// points to is the heap key <name>^ (aliasing assumption: distinct pointer variables point to distinct cells)
+				return SVal{K: KLoc, Loc: name + "^", GoT: t, Src: name}
+			}
+		}
 	}
 	switch sortOf(t) {
 	case "Int":
